@@ -41,7 +41,9 @@ def cases(draw):
             ops.append({"op": "line", "text": f"{nid};255;0;0;17;{draw(st.sampled_from(['1.4', '2.0', '2.2']))}"})
         elif roll < 70:
             nid = draw(st.integers(0, 6))
-            text = draw(st.sampled_from([f"{nid};1;0;0;6;t", f"{nid};1;1;0;0;21", f"{nid};255;3;0;0;55", f"{nid};255;3;0;11;sk", "0;255;3;0;14;ready", "x;y"]))
+            text = draw(st.sampled_from([f"{nid};1;0;0;6;t", f"{nid};1;1;0;0;21", f"{nid};255;3;0;0;55", f"{nid};255;3;0;11;sk", "0;255;3;0;14;ready", "x;y",
+                                        # smart sleep: wake-up announcements (2.0/2.1 and 2.2 style) and requests whose reply is then withheld
+                                        f"{nid};255;3;0;22;7", f"{nid};255;3;0;32;500", f"{nid};1;2;0;0;", f"{nid};255;3;0;6;0", f"{nid};255;3;0;1;"]))
             ops.append({"op": "line", "text": text})
         elif roll < 79:
             ops.append({"op": "tick"})
@@ -53,6 +55,10 @@ def cases(draw):
     if draw(st.booleans()):
         # force the classic shape: request, clean restart, request
         ops += [{"op": "idreq", "src": 255, "child": 255}, {"op": "restart"}, {"op": "idreq", "src": 255, "child": 255}]
+    if draw(st.integers(0, 3)) == 0:
+        # ids handed out while a sleeping node has a reply waiting for it (that reply is part of what gets saved)
+        ops += [{"op": "line", "text": t} for t in ("5;255;0;0;17;2.0", "5;1;0;0;6;t", "5;1;1;0;0;21", "5;255;3;0;22;7", "5;255;3;0;32;500", "5;1;2;0;0;", "5;255;3;0;6;0")]
+        ops += [{"op": "idreq", "src": 255, "child": 255}, {"op": draw(st.sampled_from(["tick", "restart"]))}, {"op": "restart"}, {"op": "idreq", "src": 255, "child": 255}]
     return {"version": version, "ext": ext, "ops": ops}
 
 
@@ -81,7 +87,10 @@ def check_case(case, stats=None):
                 with layer:
                     life.tick()  # whatever the schedule does with the failure: ids must stay unique afterwards
             elif kind == "restart":
-                life.stop()
+                try:
+                    life.stop()
+                except Exception as exc:  # pylint: disable=broad-except
+                    raise Violation(f"stop_raises.{type(exc).__name__}", case, f"step {i}: the clean stop raised {type(exc).__name__}: {exc} (ids handed out so far: {handed})") from exc
                 lifetime += 1
                 life = persist.Lifetime(fake, version, path)
                 barrier_since_request = True
@@ -135,7 +144,10 @@ def check_case(case, stats=None):
                     clause = "id_handed_out_twice_across_restart" if prev[1] != lifetime else "id_handed_out_twice"
                     raise Violation(clause, case, where)
                 handed.append((new_id, lifetime))
-        life.stop()
+        try:
+            life.stop()
+        except Exception as exc:  # pylint: disable=broad-except
+            raise Violation(f"stop_raises.{type(exc).__name__}", case, f"the final clean stop raised {type(exc).__name__}: {exc} (ids handed out: {handed})") from exc
     if stats is not None:
         stats.case(
             common.chash(case) if (requests >= 2 and separated) else None,
@@ -180,7 +192,7 @@ def main(tier):
             check_case(body["case"], run.stats)
         except Violation as v:
             run.stats.violation(v.clause, v.case, f"[regression {os.path.basename(path)}] {v.detail}")
-    shards, n = (16, 120) if tier == "quick" else (16, 800)
+    shards, n = (16, 120) if tier == "quick" else (16, 3000)
     jobs = [(common.shard_seed(common.seed(), i), n) for i in range(shards)]
     for stats in common.pool_map(_shard, jobs):
         run.stats.merge(stats)
